@@ -72,6 +72,7 @@ type World struct {
 	known      map[string]bool
 	solverBin  string
 	solverMs   int
+	feasMs     int
 	methodIdx  sync.Map
 }
 
@@ -238,6 +239,7 @@ type HarnessResult struct {
 	Intrinsics  []string          `json:"intrinsics_used"`
 	WallS       float64           `json:"wall_s"`
 	PanicEnds   map[string]int    `json:"panic_ends,omitempty"`
+	FeasUnknown int               `json:"feasibility_unknown_both_sides_explored"`
 }
 
 type RunResult struct {
@@ -249,6 +251,7 @@ type RunResult struct {
 	SolverUnsat int              `json:"solver_unsat"`
 	SolverUnk   int              `json:"solver_unknown"`
 	SolverS     float64          `json:"solver_seconds"`
+	Fallbacks   int              `json:"one_shot_fallbacks"`
 	WallS       float64          `json:"wall_s"`
 	Solver      string           `json:"solver"`
 	LoadS       float64          `json:"load_s"`
@@ -257,6 +260,7 @@ type RunResult struct {
 type workItem struct {
 	h      *Harness
 	prefix []Decision
+	model  map[string]string
 }
 
 func (w *World) Explore(hs []*Harness, nworkers int) *RunResult {
@@ -280,7 +284,7 @@ func (w *World) Explore(hs []*Harness, nworkers int) *RunResult {
 	cond := sync.NewCond(&mu)
 	var stack []workItem
 	for i := len(hs) - 1; i >= 0; i-- {
-		stack = append(stack, workItem{hs[i], nil})
+		stack = append(stack, workItem{hs[i], nil, nil})
 	}
 	active := 0
 	wit := &witnessBook{got: map[string]bool{}}
@@ -291,6 +295,9 @@ func (w *World) Explore(hs []*Harness, nworkers int) *RunResult {
 		go func(id int) {
 			defer wg.Done()
 			s, err := NewSolver(w.solverBin, w.solverMs)
+			if err == nil {
+				s.feasMs = w.feasMs
+			}
 			if err != nil {
 				fmt.Fprintln(os.Stderr, "cannot start solver:", err)
 				return
@@ -303,6 +310,7 @@ func (w *World) Explore(hs []*Harness, nworkers int) *RunResult {
 				rr.SolverUnsat += s.Unsat
 				rr.SolverUnk += s.Unknown
 				rr.SolverS += s.Time.Seconds()
+				rr.Fallbacks += s.Fallbacks
 				mu.Unlock()
 				s.Close()
 			}()
@@ -338,7 +346,7 @@ func (w *World) Explore(hs []*Harness, nworkers int) *RunResult {
 				active++
 				mu.Unlock()
 
-				pr := w.RunPath(wk, it.h, it.prefix)
+				pr := w.RunPath(wk, it.h, it.prefix, it.model)
 
 				mu.Lock()
 				active--
@@ -350,6 +358,7 @@ func (w *World) Explore(hs []*Harness, nworkers int) *RunResult {
 					hr.PanicEnds[pr.Detail]++
 				}
 				hr.Instrs += pr.Instrs
+				hr.FeasUnknown += pr.FeasUnknown
 				hr.Obligations += pr.Obligations
 				hr.Discharged += pr.Discharged
 				for k, v := range pr.Reached {
@@ -379,7 +388,7 @@ func (w *World) Explore(hs []*Harness, nworkers int) *RunResult {
 					covers[it.h.Name][k] = true
 				}
 				for _, p := range pr.Pending {
-					stack = append(stack, workItem{it.h, p})
+					stack = append(stack, workItem{it.h, p.Log, p.Model})
 				}
 				hr.WallS = time.Since(started[it.h.Name]).Seconds()
 				mu.Unlock()
